@@ -39,9 +39,20 @@ RL(l) == [l |-> l]
 RE(e) == [e |-> e]
 Pick(l, idxs) == [k \in 1..Len(idxs) |-> At(l, idxs[k])]
 
-AbsAnswer(src, o) ==
+(* the abstract state is the cursor of the one suspended iterator (-1: none) *)
+AbsItStart(ait) == IF ait = -1 THEN 0 ELSE ait
+AbsItAfter(src, ait, o) ==
+    CASE o.op = "IterTake" -> Min(AbsItStart(ait) + o.a, Len(src))
+      [] o.op = "IterDrain" -> -1
+      [] OTHER -> ait
+
+AbsAnswer(src, ait, o) ==
     LET n == Len(src)
-    IN CASE o.op = "Index" -> RI(IF n = 0 THEN 0 ELSE At(src, o.a % n))          \* wrap-around
+    IN CASE o.op = "IterTake" -> RL(SubSeq(src, AbsItStart(ait) + 1, Min(AbsItStart(ait) + o.a, n)))
+         [] o.op = "IterDrain" -> RL(SubSeq(src, AbsItStart(ait) + 1, n))
+         [] o.op = "CopyIndex" -> RI(IF n = 0 THEN 0 ELSE At(src, o.a % n))
+         [] o.op = "CopyList" -> RL(src)
+         [] o.op = "Index" -> RI(IF n = 0 THEN 0 ELSE At(src, o.a % n))          \* wrap-around
          [] o.op = "NegIndex" -> IF o.a <= n THEN RI(At(src, n - o.a)) ELSE RE("IndexError")
          [] o.op = "SliceTo" -> RL(Pick(src, Range(o.a, Min(o.b, n), o.c)))
          [] o.op = "SliceNegStop" -> RL(Pick(src, Range(o.a, Max(n - o.b, 0), o.c)))
@@ -60,7 +71,7 @@ AbsAnswer(src, o) ==
 (* Impl: state s = [gen, raw]; src is the raw iterator's content           *)
 
 Pull(src, s) ==       \* one __next__ (no-op at exhaustion; callers test Exhausted)
-    IF s.raw < Len(src) THEN [gen |-> Append(s.gen, src[s.raw + 1]), raw |-> s.raw + 1] ELSE s
+    IF s.raw < Len(src) THEN [s EXCEPT !.gen = Append(s.gen, src[s.raw + 1]), !.raw = s.raw + 1] ELSE s
 Exhausted(src, s) == s.raw >= Len(src)
 
 RECURSIVE PullAll(_, _)
@@ -98,9 +109,43 @@ Scan(src, s, i, x) ==
        ELSE IF At(h[2].gen, i) = x THEN <<1, h[2]>>
        ELSE Scan(src, h[2], i + 1, x)
 
+(* a suspended iterator over the list: cursor i; next item = has_ind(i) then self[i] *)
+RECURSIVE IterPull(_, _, _, _, _)
+IterPull(src, s, i, k, acc) ==      \* take up to k items from cursor i
+    IF k = 0 THEN <<acc, s, i>>
+    ELSE LET h == HasInd(src, s, i)
+         IN IF ~h[1] THEN <<acc, h[2], i>>
+            ELSE IterPull(src, h[2], i + 1, k - 1, Append(acc, At(h[2].gen, i)))
+
+(* the kept copy (deep_copy = a lazy VIEW through a suspended iterator of the original):
+   cp = [on, gen, cur]; it fills its own cache by pulling the original's iterator *)
+RECURSIVE CopyPullTo(_, _, _)
+CopyPullTo(src, s, k) ==
+    IF Len(s.cp.gen) >= k THEN s
+    ELSE LET p == IterPull(src, s, s.cp.cur, 1, <<>>)
+         IN IF p[1] = <<>> THEN [p[2] EXCEPT !.cp.cur = p[3]]
+            ELSE CopyPullTo(src, [p[2] EXCEPT !.cp = [on |-> TRUE, gen |-> Append(s.cp.gen, p[1][1]), cur |-> p[3]]], k)
+CopyOn(s) == IF s.cp.on THEN s ELSE [s EXCEPT !.cp = [on |-> TRUE, gen |-> <<>>, cur |-> 0]]
+
+Big == 1000000
+
+InitImpl == [gen |-> <<>>, raw |-> 0, it |-> -1, cp |-> [on |-> FALSE, gen |-> <<>>, cur |-> 0]]
+Core(s, c) == [s EXCEPT !.gen = c.gen, !.raw = c.raw]
+
 (* <<result, next state>> of one observation *)
 ImplDo(src, s, o) ==
-    CASE o.op = "Index" -> LET g == GetItem(src, s, o.a) IN <<RI(g[1]), g[2]>>
+    CASE o.op = "IterTake" ->
+           LET p == IterPull(src, s, IF s.it = -1 THEN 0 ELSE s.it, o.a, <<>>)
+           IN <<RL(p[1]), [p[2] EXCEPT !.it = p[3]]>>
+      [] o.op = "IterDrain" ->
+           LET p == IterPull(src, s, IF s.it = -1 THEN 0 ELSE s.it, Big, <<>>)
+           IN <<RL(p[1]), [p[2] EXCEPT !.it = -1]>>
+      [] o.op = "CopyIndex" ->
+           LET s1 == CopyPullTo(src, CopyOn(s), o.a + 1)
+           IN <<RI(IF s1.cp.gen # <<>> THEN At(s1.cp.gen, o.a % Len(s1.cp.gen)) ELSE 0), s1>>
+      [] o.op = "CopyList" ->
+           LET s1 == CopyPullTo(src, CopyOn(s), Big) IN <<RL(s1.cp.gen), s1>>
+      [] o.op = "Index" -> LET g == GetItem(src, s, o.a) IN <<RI(g[1]), g[2]>>
       [] o.op = "NegIndex" ->
            LET s1 == PullAll(src, s)
            IN <<IF o.a <= Len(s1.gen) THEN RI(At(s1.gen, Len(s1.gen) - o.a)) ELSE RE("IndexError"), s1>>
